@@ -45,10 +45,26 @@ func Verif_C02_E_DebExtras() {
 		info.Homepage = ""
 	}
 	var want string
-	tInterest, tActNo := v.NondetBool("trigger.interest"), v.NondetBool("trigger.activate_noawait")
 	tA := verifExtraWord("trigger.a", 2)
 	tB := verifExtraWord("trigger.b", 2)
 	tC := verifExtraWord("trigger.c", 2)
+	// none, each of the six directives alone (two names), or interest + activate-noawait
+	kind := v.NondetChoice("trigger.kind", 8)
+	tInterest, tActNo := kind == 1 || kind == 7, kind == 6 || kind == 7
+	switch kind {
+	case 2:
+		info.Deb.Triggers.InterestAwait = []string{tA, tB}
+		want = "interest-await " + tA + "\ninterest-await " + tB + "\n"
+	case 3:
+		info.Deb.Triggers.InterestNoAwait = []string{tA, tB}
+		want = "interest-noawait " + tA + "\ninterest-noawait " + tB + "\n"
+	case 4:
+		info.Deb.Triggers.Activate = []string{tA, tB}
+		want = "activate " + tA + "\nactivate " + tB + "\n"
+	case 5:
+		info.Deb.Triggers.ActivateAwait = []string{tA, tB}
+		want = "activate-await " + tA + "\nactivate-await " + tB + "\n"
+	}
 	if tInterest {
 		info.Deb.Triggers.Interest = []string{tA, tB}
 		want += "interest " + tA + "\ninterest " + tB + "\n"
@@ -91,7 +107,7 @@ func Verif_C02_E_DebExtras() {
 	verifField(t, "Package", m.Name, "deb-name")
 	verifField(t, "Description", m.Desc, "deb-description")
 	tr := models.Find(vw.Control, "./triggers")
-	if tInterest || tActNo {
+	if kind != 0 {
 		v.Assert(tr != nil && string(tr.Data) == want, "deb-triggers-member-lists-configured-triggers")
 	} else {
 		v.Assert(tr == nil, "deb-no-triggers-member-without-triggers")
